@@ -234,6 +234,24 @@ func TestVerifC18Bucket(t *testing.T) {
 				if dst == src {
 					return
 				}
+				if rapid.IntRange(0, 3).Draw(t, "fromAbsent") == 0 {
+					// a source that was never stored: the copy reports it, and nothing is stored by it - the
+					// destination stays absent, or keeps what was last written to it (the invariant below decides)
+					src = c18Name().Draw(t, "absentSrc")
+					if _, stored := model[src]; stored || src == dst || c18Conflict(model, src) {
+						return // (a source name above or below a stored one is a directory or unreachable: not modelled)
+					}
+					err := Copy(ctx, b.Object(dst), b.Object(src))
+					if err == nil {
+						t.Fatalf("after %v: copying the never-stored %q to %q succeeded", trace, src, dst)
+					}
+					if !errors.Is(err, ErrObjectNotExist) {
+						t.Fatalf("after %v: copying the never-stored %q: error %v does not report ErrObjectNotExist", trace, src, err)
+					}
+					trace = append(trace, "copyFromAbsent("+src+"->"+dst+")")
+					vstats.Label("copyFromAbsent")
+					return
+				}
 				conflict := c18Conflict(model, dst)
 				err := Copy(ctx, b.Object(dst), b.Object(src))
 				if err != nil {
